@@ -514,6 +514,14 @@ class YAMLPath:
                         , yaml_path
                     )
 
+                if demarc_count > 0 and demarc_stack[0] == "[":
+                    # Only a Search Keyword takes parentheses within []
+                    raise YAMLPathException((
+                        "Collectors cannot be opened within [] at character"
+                        " index {}; escape the \"{}\" when it is meant"
+                        " literally in YAML Path")
+                        .format(char_idx, char), yaml_path)
+
                 if collector_level == 0 and segment_id:
                     # Record its predecessor element; unless it has already
                     # been identified as a special type, assume it is a KEY.
@@ -538,6 +546,12 @@ class YAMLPath:
                     and char == ")"
                     and segment_type is PathSegmentTypes.KEYWORD_SEARCH
             ):
+                if demarc_stack[-1] != "(":
+                    raise YAMLPathException((
+                        "Unmatched closing parenthesis at character index"
+                        " {}, \"{}\"; the innermost open demarcation is {}"
+                        " in YAML Path")
+                        .format(char_idx, char, demarc_stack[-1]), yaml_path)
                 demarc_count -= 1
                 demarc_stack.pop()
                 next_char_must_be = "]"
@@ -773,7 +787,7 @@ class YAMLPath:
 
             elif char == "]":
                 # Track bracket de-nesting
-                if demarc_count < 1:
+                if demarc_count < 1 or demarc_stack[-1] != "[":
                     raise YAMLPathException((
                         "Unmatched closing bracket at character index {},"
                         " \"{}\"")
